@@ -52,8 +52,8 @@ def setup(spec, ctx):
 
 def cases(spec, ctx):
     if spec["work"] == "directed":
-        yield {"work": "synth", "part": "d", "i": 0, "force": {"method": "median", "shape": [201, 101], "fs": 3}}
-        yield {"work": "synth", "part": "d", "i": 1, "force": {"method": "bilateral", "shape": [101, 52], "ss": 1.0}}
+        yield {"work": "synth", "part": "d", "i": 0, "force": {"method": "median", "shape": [201, 203], "fs": 3}}
+        yield {"work": "synth", "part": "d", "i": 1, "force": {"method": "bilateral", "shape": [101, 104], "ss": 1.0}}
         yield {"work": "synth", "part": "d", "i": 2, "force": {"method": "bilateral", "shape": [9, 30], "ss": 1.4}}   # width 5
         yield {"work": "synth", "part": "d", "i": 3, "force": {"method": "bilateral", "shape": [12, 9], "ss": 1.0}}   # even width 4
         yield {"work": "synth", "part": "d", "i": 4, "force": {"method": "bilateral", "shape": [6, 7], "ss": 6.0}}    # width > image
